@@ -45,6 +45,9 @@ def gen_cases(tier, seed):
     cat = P.catalogue(2, 2, 12, P.TYPES_SMALL)
     for i in range(len(cat)):
         yield ('repr', i)
+    for n in (3, 4):
+        for dims in (1, 2):
+            yield ('reprK', n, dims)
 
 
 def describe(case):
@@ -314,6 +317,9 @@ def run_case(case):
         part_bool(r, case)
     elif case[0] == 'from_int':
         part_from_int(r, case)
+    elif case[0] == 'reprK':
+        from checks.c06_patterned import block_patterns
+        part_repr(None, r, case, block_patterns(case[1], case[2]))
     else:
         part_repr(case[1], r, case)
     return r
@@ -377,14 +383,15 @@ def part_from_int(r, case):
                 r.bad('law-violated', 'semirings.' + type(S).__name__, 'from_int', 'from_int on a tensor disagrees with from_int on ints', case, (case, sem, dt, 'tensor'))
 
 
-def part_repr(i, r, case):
+def part_repr(i, r, case, pats=None):
     """add / mul / sub give the same result on patterned operands as on dense tensors."""
     import torch
     from fggs.indices import PatternedTensor
     from mc import ir as IR
-    cat = P.catalogue(2, 2, 12, P.TYPES_SMALL)
-    tt = list(cat)[i]
-    for pa, pb in itertools.product(cat[tt], repeat=2):
+    if pats is None:
+        cat = P.catalogue(2, 2, 12, P.TYPES_SMALL)
+        pats = cat[list(cat)[i]]
+    for pa, pb in itertools.product(pats, repeat=2):
         for sem in ('real', 'log', 'viterbi', 'bool'):
             S = IR.semiring(sem, 'float64')
             zero = S.from_int(0).item()
@@ -402,9 +409,15 @@ def part_repr(i, r, case):
                             a = PatternedTensor(a.physical.log(), a.paxes, a.vaxes, da if da == zero else math.log(da))
                             b = PatternedTensor(b.physical.log(), b.paxes, b.vaxes, db)
                     A, B = a.to_dense(), b.to_dense()
-                    for opn in ('add', 'mul', 'sub'):
-                        got = getattr(S, opn)(a, b).to_dense()
-                        want = getattr(S, opn)(A.clone(), B.clone())
+                    variants = [('', a, b, A, B)]
+                    if a.ndim == 2:
+                        variants += [('row-left ', a[0], b, A[0], B), ('row-right ', a, b[0], A, B[0])]
+                    for opn, (vn, aa, bb, AA, BB) in itertools.product(('add', 'mul', 'sub'), variants):
+                        if vn and sem == 'bool' and False:
+                            continue
+                        got = getattr(S, opn)(aa, bb).to_dense()
+                        want = getattr(S, opn)(AA.clone(), BB.clone())
+                        opn = vn + opn
                         same = torch.equal(got, want) if got.dtype == torch.bool else (torch.equal(got.isnan(), want.isnan()) and torch.equal(got.nan_to_num(nan=0.), want.nan_to_num(nan=0.)))
                         if not same:
                             r.bad('representation-dependent', 'semirings.' + type(S).__name__ + '.' + opn, 'repr', '%s %s on %s default %r and %s default %r: patterned %r, dense %r' % (sem, opn, P.show(pa), da, P.show(pb), db, got.tolist(), want.tolist()), ('repr1', i), key)
